@@ -1,0 +1,91 @@
+//go:build verif
+
+// Package verifhook provides named instrumentation points for the external
+// verification harness (build tag verif).
+package verifhook
+
+import (
+	"os"
+	"strconv"
+	"strings"
+	"sync"
+	"syscall"
+)
+
+var (
+	mu       sync.Mutex
+	handlers = map[string]func(label string, hit int){}
+	hits     = map[string]int{}
+	crashAt  = parseCrashEnv()
+)
+
+type crashSpec struct {
+	label string
+	n     int
+}
+
+// HOOKAIDO_VERIF_CRASH=<label>:<n> makes the process kill itself (SIGKILL) on the n-th hit of label.
+func parseCrashEnv() *crashSpec {
+	v := strings.TrimSpace(os.Getenv("HOOKAIDO_VERIF_CRASH"))
+	if v == "" {
+		return nil
+	}
+	i := strings.LastIndex(v, ":")
+	if i <= 0 {
+		return &crashSpec{label: v, n: 1}
+	}
+	n, err := strconv.Atoi(v[i+1:])
+	if err != nil || n <= 0 {
+		n = 1
+	}
+	return &crashSpec{label: v[:i], n: n}
+}
+
+// Point marks a named point in the code: counts the hit, runs a registered handler, and crashes the process if asked to.
+func Point(label string) {
+	mu.Lock()
+	hits[label]++
+	n := hits[label]
+	h := handlers[label]
+	if h == nil {
+		h = handlers["*"]
+	}
+	mu.Unlock()
+	if crashAt != nil && crashAt.label == label && crashAt.n == n {
+		_ = syscall.Kill(os.Getpid(), syscall.SIGKILL)
+		select {}
+	}
+	if h != nil {
+		h(label, n)
+	}
+}
+
+// Set registers a handler for a label ("*" = every label). nil removes it.
+func Set(label string, h func(label string, hit int)) {
+	mu.Lock()
+	defer mu.Unlock()
+	if h == nil {
+		delete(handlers, label)
+		return
+	}
+	handlers[label] = h
+}
+
+// Reset clears handlers and hit counters.
+func Reset() {
+	mu.Lock()
+	defer mu.Unlock()
+	handlers = map[string]func(string, int){}
+	hits = map[string]int{}
+}
+
+// Hits returns a copy of the hit counters.
+func Hits() map[string]int {
+	mu.Lock()
+	defer mu.Unlock()
+	out := make(map[string]int, len(hits))
+	for k, v := range hits {
+		out[k] = v
+	}
+	return out
+}
